@@ -7,13 +7,13 @@ ROOT = os.path.dirname(os.path.dirname(os.path.abspath(__file__)))
 BASE = "cd /repo && /venv/bin/python -m pytest -ra -q -p no:cacheprovider --timeout=900 --continue-on-collection-errors"
 
 CHECKS = {
-    "C04": ("exploration", "5.C04", "write-history replayed as read script; cp1252 image oracle (runtime monitor on real EoWriter/EoReader); string-length sweep; thread stress with private writers/readers",
+    "C04": ("exploration", "5.C04", "write-history replayed as read script; cp1252 image oracle (runtime monitor on real EoWriter/EoReader); string-length sweep; outputs taken half-way and twice; thread stress with private writers/readers; -O/-OO/-W error/-bb interpreters",
             "Seeded-random write histories (all add_* kinds, both sanitisation modes) read back through the real reader; every read compared with the written value's cp1252 image and exact consumption checked. Held on the histories observed, not a proof.",
             "cp1252 image table built from the codec's data table; histories limited to the format's own exclusions."),
     "C05": ("exploration", "5.C05", "lock-step reference model + class invariants (icontract) + guarded buffer on the real EoReader",
             "Bounded-exhaustive DFS (all data over {00,01,FE,FF} up to the bound x all op sequences up to the depth bound, incl. slices of slices) plus random scripts; value, exception class, position, remaining and mode compared with an independent model after every operation.",
             "Reference reader model (break = first 0xFF at or after the current chunk's start) is the documented model; non-negative lengths."),
-    "C06": ("exploration", "5.C06", "writer event log vs reader event log (offset / non-interference monitor)",
+    "C06": ("exploration", "5.C06", "writer event log vs reader event log (offset / non-interference monitor); mistyped reads repeated on the chunk alone; scribbled return values; other writers in between; -O/-OO/-W error/-bb interpreters",
             "Random chunk lists and per-chunk under-/over-read plans; the writer's recorded chunk offsets are compared with the reader's position after each next_chunk, prefix reads with written values, surplus reads with 0/empty; every field write scanned for 0xFF.",
             "Fields are EO integers and non-padded strings with sanitisation on."),
     "C07": ("exploration", "5.C07", "differential codec + contracts (icontract) on real encode_number/decode_number; exhaustive sub-ranges; polluted histories; thread stress incl. cold start and sys.monitoring yield injection; -O/-OO interpreters",
@@ -22,7 +22,7 @@ CHECKS = {
     "C08": ("exploration", "5.C08", "differential + algebraic monitors on real encode_string/decode_string; exhaustive 2x2x256 table; padded run shapes; live buffer exports; thread stress with yield injection; -O/-OO interpreters",
             "Complete (byte x index parity x length parity) table, all strings up to the bound over a 12-symbol boundary alphabet, random long strings; self-inverse (except 0x7E), length, reversal, range and 0x00/0xFF preservation checked per case.",
             "Reference substitution table cross-checked against the repository's six pinned vectors."),
-    "C09": ("exploration", "5.C09", "per-call snapshot monitor (incl. exception path) against reference writer",
+    "C09": ("exploration", "5.C09", "per-call snapshot monitor (incl. exception path) against reference writer; integers up to 10^4000; -O/-OO/-W error/-bb interpreters",
             "Random writer histories mixing valid and invalid calls on non-empty writers plus a full grid of string-method x length-relation x padded x mode; atomic rejection, declared append size, exact image / sanitisation checked on every call.",
             "Integers >= 0; one byte per character."),
     "C10": ("exploration", "5.C10", "inverse / permutation / multiset monitors on the real encryption primitives; exhaustive byte pairs, run-length sweeps; live buffer exports; thread stress with yield injection; -O/-OO interpreters",
@@ -31,10 +31,10 @@ CHECKS = {
     "C11": ("exploration", "5.C11", "exhaustive differential run against a UBSan-instrumented C oracle (clang -fsanitize=undefined,integer); repeated / keyword / int-like calls, lowered decimal context, thread stress incl. cold start with sys.monitoring yield injection, -O/-OO interpreters",
             "All 16,194,277 challenges of the three-byte field in both tiers: real hash == client arithmetic (C oracle under UBSan, cross-checked by a Python truncating-remainder oracle); range clause checked for challenges <= 11,092,110.",
             "The client evaluates the published formula with 32-bit int and truncating remainder."),
-    "C12": ("exploration", "5.C12", "injected enumerating random source (choice-tree odometer) + range/reconstruction monitors; every draw script dealt twice, earlier starts re-read after later ones",
+    "C12": ("exploration", "5.C12", "injected enumerating random source (choice-tree odometer, first 8 draws of a call) + range/reconstruction monitors; every draw script dealt twice, earlier starts re-read after later ones; a source stuck on one answer; cross-kind reconstruction; -O/-OO/-W error/-bb interpreters",
             "Every outcome of every draw of the three generate() functions is produced once (57,751 + 442,764 + 240 outcomes observed); ranges, field fit and from-values reconstruction checked on each.",
             "generate() draws through the random module's functions; otherwise the check samples and reports it."),
-    "C13": ("exploration", "5.C13", "lock-step counter model + twin-peer comparison on the real PacketSequencer",
+    "C13": ("exploration", "5.C13", "lock-step counter model + twin-peer and snapshot-peer (deepcopy / pickle) comparison on the real PacketSequencer; observations (repr/str/vars) between operations; -O/-OO/-W error/-bb interpreters",
             "All histories over {next, set(a), set(b)} up to the depth bound after several wrap-around prefixes (DFS with copies), random histories up to 300 ops with every SequenceStart kind; each returned value compared with start+n mod 10 and a lazily driven twin.",
             "copy.copy of a sequencer is independent (DFS only)."),
     "C01": ("exploration", "5.C01", "round-trip through the real generated code behind lock-step writer/reader proxies; AST-driven deep equality; reference round-trip domain filter",
@@ -49,13 +49,13 @@ CHECKS = {
     "C15": ("fault_enumeration", "5.C15", "frame monitor on every generated serialize/deserialize call + enumerated fault points (failing reader/writer proxies, sys.monitoring LINE failpoints, invalid objects)",
             "For each clean run every reader/writer operation index and every line event inside generated methods is used as a fault point (sampled above a cap); entry mode == exit mode is checked on every frame at every nesting level, returning or raising, for both entry modes.",
             "Faults are exceptions from reader/writer operations, validation or statement boundaries of generated methods; exceptions thrown into a finally clause's restoring statement are out of scope."),
-    "C16": ("exploration", "5.C16", "one-violation object mutants checked by the reference validity rules; monitor on the exception class of real serialize",
+    "C16": ("exploration", "5.C16", "one-violation object mutants (incl. namesake case data, astronomical integers) checked by the reference validity rules; monitor on the exception class of real serialize; generator instances that read an earlier / a broken revision first; -O/-OO/-W error/-bb interpreters",
             "Every catalogued violation (None for required, wrong fixed/padded/length-bounded sizes, integers / ordinals / elements at or above the limit, wrong-kind case data) applied at eligible fields at every nesting depth of generated values; real serialize must raise SerializationError or ValueError.",
             "Invalidity is judged by the reference interpreter from the declaration."),
     "C19": ("exploration", "5.C19", "setattr/delattr, aliasing (five argument forms), mutable-getter and double-serialization monitors on real generated instances (constructed and deserialized), incl. reused / sanitising / refusing writers and earlier instances re-checked",
             "Every public field and byte_size of every instance reached (nested structs and case data included) is assigned and deleted (must raise AttributeError); arrays must be tuples; caller-side mutation of constructor lists must not show; serialization is repeatable.",
             "Type-conforming constructor arguments."),
-    "C14": ("exploration", "5.C14", "construction histories with membership snapshots on real enum classes (hand-written + generated), two interpreters",
+    "C14": ("exploration", "5.C14", "construction histories with membership snapshots (names, ordinals, member values) on real enum classes (hand-written incl. own __init__/_missing_/metaclass + generated), inside exception handlers, with warnings as errors, two interpreters, -O/-OO/-W error/-bb",
             "Hand-written declarations (dense, sparse, zero-less, None member, negative/huge ordinals) and every enum generated from corpus + SpecGen trees x integers -5..N, 253^k+-1, 2^31, 2^63, 2^70: identity of declared members, value/hash/name/int of unrecognised ones, members unchanged after shuffled construction histories; hand-written part repeated under CPython 3.11.",
             "Only CPython 3.12 and 3.11 exist in the sandbox."),
     "C17": ("exploration", "5.C17", "one-rule spec mutants at every placement, certified by an independent grammar model; monitor = generator raises vs returns",
